@@ -5,7 +5,7 @@ from kv import Case, xn, xl, xlist, xbool
 
 ID = "C12"
 MODULE = "C12"
-IMPORTS = "Bytes RustInt Limiter LimiterProofs"
+IMPORTS = "Bytes RustInt Limiter LimiterProofs LimiterConc LimiterConcProofs"
 PROFILES = ("dev", "nochk")
 FEATURES = ("hooks",)       # the accept loop's hook points: accept errors are provoked and counted on the real listener
 # cases whose real-time schedule could not be kept (or whose server could not be started) after 3 attempts in the
@@ -141,6 +141,37 @@ THEOREMS = [
     ("reference_server_events_meaning",
      "forall (sc : sconfig) (t0 : N), (forall evs, snd (spec_server_events sc t0 evs) = loop_spec 0 evs) /\\ "
      "(forall cs, spec_server_events sc t0 (map conn_of cs) = (spec_server sc t0 cs, Running))"),
+    ("concurrent_others_never_hurt",
+     "forall (checked : bool) (cfg : config) (nsh : nat) (shard : N -> nat) (t0 : N) (progs : list (list N)) "
+     "(sch : list (nat * N)) (l2 : list ret_entry) (i : nat) (b : N) (d : outcome action) (l1 : list ret_entry), "
+     "fits (length sch) -> conc_log checked cfg nsh shard t0 progs sch = l2 ++ (i, b, d) :: l1 -> "
+     "exists act, d = Ok act /\\ action_code act <= action_code (ladder (max_requests cfg) (rets b ((i, b, d) :: l1)))"),
+    ("concurrent_own_traffic_never_limited",
+     "forall (checked : bool) (cfg : config) (nsh : nat) (shard : N -> nat) (t0 : N) (progs : list (list N)) "
+     "(sch : list (nat * N)) (i : nat) (b : N) (d : outcome action), "
+     "fits (length sch) -> count b (all_calls progs) <= max_requests cfg -> "
+     "In (i, b, d) (conc_log checked cfg nsh shard t0 progs sch) -> d = Ok Passed"),
+    ("concurrent_exact_ladder",
+     "forall (checked : bool) (cfg : config) (nsh : nat) (shard : N -> nat) (t0 : N) (progs : list (list N)) "
+     "(sch : list (nat * N)) (b : N), fits (length sch) -> check_every cfg <= 1 -> reset_after cfg = None -> "
+     "verdicts_of b (conc_log checked cfg nsh shard t0 progs sch) "
+     "= map (@Ok action) (ladder_down (max_requests cfg) (N.to_nat (rets b (conc_log checked cfg nsh shard t0 progs sch)))) /\\ "
+     "(all_done (wrun checked cfg nsh shard (wstart t0 progs) sch) = true -> "
+     "verdicts_of b (conc_log checked cfg nsh shard t0 progs sch) "
+     "= map (@Ok action) (ladder_down (max_requests cfg) (N.to_nat (count b (all_calls progs)))))"),
+    ("concurrent_linearizable",
+     "forall (checked : bool) (cfg : config) (nsh : nat) (shard : N -> nat) (t0 : N) (progs : list (list N)) "
+     "(sch : list (nat * N)) (tm : ret_entry -> N), fits (length sch) -> check_every cfg <= 1 -> reset_after cfg = None -> "
+     "map snd (rev (conc_log checked cfg nsh shard t0 progs sch)) "
+     "= map (@Ok action) (reference cfg t0 (map (ev_of tm) (rev (conc_log checked cfg nsh shard t0 progs sch))))"),
+    ("concurrent_disabled_never_limits",
+     "forall (checked : bool) (cfg : config) (nsh : nat) (shard : N -> nat) (t0 : N) (progs : list (list N)) (sch : list (nat * N)), "
+     "Forall (fun en => snd en = Ok Passed) (conc_log checked (disable cfg) nsh shard t0 progs sch) /\\ "
+     "conc_shared checked (disable cfg) nsh shard t0 progs sch = cinit t0"),
+    ("concurrent_model_is_sequential_on_one_thread",
+     "forall (checked : bool) (cfg : config) (nsh : nat) (shard : N -> nat) (t0 : N) (h : list event), "
+     "check_every cfg <= usize_max -> (forall k, (shard k < nsh)%nat) -> "
+     "concseq_decisions checked cfg nsh shard t0 h = decisions checked cfg t0 h"),
     ("listener_dies_063_refuted",
      "let sc := same_limiter {| max_requests := 0; check_every := 1; reset_after := Some 10000 |} in "
      "accept_loop_063 true sc 0 [Conn 1 0 []; Conn 2 1 [1]] = ([Served [] true; Refused], ReturnedOk) /\\ "
@@ -524,12 +555,93 @@ def gen_events(rng, quick):
     return cases
 
 
+V6 = 2**127 + 5
+NEIGHBOURS = [V6, V6 + 1, V6 + 2**63, V6 + 2**64, V6 + 2**80, 0xFFFF7F000001, 0x7F000001, 1]
+# the same /64 (and /128 apart), the same /48, the same /56, ::ffff:127.0.0.1 next to 127.0.0.1, ::1
+
+
+def conc_case(comp, spec, mx, ce, reset, progs, sched, kind, prof):
+    xp = xlist([xlist([xl(xn(a), xn(k)) for a, k in p]) for p in progs])
+    x = xl(xbool(prof == "dev"), cfg(mx, ce, reset), xp, xlist([xn(t) for t in sched]))
+    return Case(comp, x, spec, {"kind": kind, "cfg": (mx, ce, reset), "progs": progs}, prof)
+
+
+def gen_conc(rng, quick):
+    """Several OS threads on one manager.  (a) every call counted (check_every 0 / 1) or the limiter disabled, no reset within
+    the run: the per-address histogram of verdicts is the same under every interleaving (theorem concurrent_exact_ladder) and
+    is compared exactly; (b) any configuration: no panic and no answer harsher than the ladder on the address's own calls."""
+    cases = []
+    scale = 1 if quick else 4
+    for i in range(14 if quick else 80):
+        mx = rng.choice([0, 1, 2, 5, 50, 1000, 3000])
+        ce = rng.choice([1, 1, 1, 0, USIZE_MAX])
+        reset = rng.choice(["inf", "nan", HOUR, "inf"])
+        nthreads = rng.randrange(2, 9)
+        addrs = rng.sample(ADDRS + NEIGHBOURS[1:5], rng.randrange(1, 5))
+        progs = []
+        for _ in range(nthreads):
+            prog = [(rng.choice(addrs), rng.choice([1, 7, 100, 500, 1500 * scale])) for _ in range(rng.randrange(1, 5))]
+            progs.append(prog)
+        if i % 3 == 0:
+            # a bystander whose calls — spread over all threads — are exactly max: every one must pass
+            by = 0x0A0000FE
+            left = mx
+            for p in progs:
+                k = min(left, rng.randrange(0, mx + 1)) if p is not progs[-1] else left
+                left -= k
+                p.insert(rng.randrange(len(p) + 1), (by, k))
+        sched = [rng.randrange(nthreads) for _ in range(rng.randrange(0, 40))]
+        cases.append(conc_case("limiter.conc", "limiter.conc_spec", mx, ce, reset, progs, sched, "conc-counted", PROFILES[i % 2]))
+    for i in range(10 if quick else 60):
+        mx = rng.choice([0, 1, 2, 5, 50])
+        ce = rng.choice([2, 2, 3, 10, 1, 7])
+        reset = rng.choice([HOUR, "inf", 0, -1, 1, 5, 1])
+        nthreads = rng.randrange(2, 9)
+        addrs = rng.sample(ADDRS + NEIGHBOURS[1:5], rng.randrange(1, 5))
+        progs = [[(rng.choice(addrs), rng.choice([1, 50, 500, 2000 * scale])) for _ in range(rng.randrange(1, 5))] for _ in range(nthreads)]
+        cases.append(conc_case("limiter.concbound", "limiter.concbound", mx, ce, reset, progs, [], "conc-bound", PROFILES[i % 2]))
+    # the small-step model on one thread against the real register, call by call (and against the reference)
+    for i in range(120 if quick else 1500):
+        mx = rng.choice([0, 1, 2, 5])
+        ce = rng.choice([1, 2, 3, 0, USIZE_MAX, rng.randrange(1, 7)])
+        reset = rng.choice([HOUR, HOUR, 0, "inf", "nan", -1])
+        ev = rand_history(rng, mx, ce, rng.randrange(1, 5))
+        prof = PROFILES[i % 2]
+        x = xl(xbool(prof == "dev"), cfg(mx, ce, reset), xlist([xl(xn(a), xn(dt)) for a, dt in ev]))
+        cases.append(Case("limiter.concseq", x, "limiter.reference", {"kind": "conc-model-sequential"}, prof))
+    return cases
+
+
+def gen_neighbours(rng, quick):
+    """Addresses that any aggregation by prefix (/64, /56, /48, v4-mapped = v4) would merge: one floods, its neighbours stay
+    within their own maximum and must pass every time."""
+    cases = []
+    for mx in (1, 2, 5):
+        for ce in (1, 2):
+            for k in range(1, len(NEIGHBOURS)):
+                flooder, other = NEIGHBOURS[0] if k < 6 else NEIGHBOURS[5], NEIGHBOURS[k]
+                if k == 5:
+                    flooder, other = NEIGHBOURS[6], NEIGHBOURS[5]
+                ev = [(flooder, 0)] * (ce * (3 * mx + 3)) + [(other, 0)] * (ce * mx) + [(flooder, 0)] * ce + [(other, 0)] * ce
+                cases += reg(mx, ce, HOUR, ev, "address-neighbours", (PROFILES[(mx + ce + k) % 2],))
+    for _ in range(40 if quick else 400):
+        mx = rng.choice([0, 1, 2, 5])
+        ce = rng.choice([1, 1, 2, 3])
+        addrs = rng.sample(NEIGHBOURS, rng.randrange(2, 5))
+        n = needed(mx, ce, len(addrs)) + rng.randrange(0, 6)
+        weights = [rng.choice([1, 1, 2, 5]) for _ in addrs]
+        cases += reg(mx, ce, HOUR, [(rng.choices(addrs, weights)[0], 0) for _ in range(n)], "address-neighbours", (rng.choice(PROFILES),))
+    return cases
+
+
 def generate(rng, tier):
     quick = tier == "quick"
     cases = []
     # ---- the real-server runs that wait for the reset interval first: they spread over the shards -------
     cases += gen_server(rng, quick)
     cases += gen_events(rng, quick)
+    cases += gen_conc(rng, quick)
+    cases += gen_neighbours(rng, quick)
     # ---- corpus: the finding of this property ------------------------------------------------------
     cases += srv(2, 1, HOUR, [(0, 0, 8), (0, 0, 1), (1, 0, 1), (1, 0, 1)], "corpus")
     cases += srv(0, 1, HOUR, [(0, 0, 1), (1, 0, 1)], "corpus")
@@ -705,6 +817,32 @@ def extra_oracle(c, i):
             return ("decisions differ from the reference ladder computed from the configuration current at each call: "
                     "expected %s" % want[:400])
         return None
+    if c.comp == "limiter.conc" and "progs" in c.meta:
+        mx, ce, _ = c.meta["cfg"]
+        order, n = [], {}
+        for p in c.meta["progs"]:
+            for a, k in p:
+                if k and a not in order:
+                    order.append(a)
+                n[a] = n.get(a, 0) + k
+        rows = []
+        for a in order:
+            if not n[a]:
+                continue
+            p = n[a] if ce == USIZE_MAX else min(n[a], mx)
+            t = n[a] if ce == USIZE_MAX else min(n[a], 3 * mx)
+            rows.append("(L (N %d) (N %d) (N %d) (N %d) (N 0) (N 0))" % (a, p, t - p, n[a] - t))
+        want = "(L" + "".join(" " + r for r in rows) + ")"
+        if i != want:
+            return ("%d threads on one manager, every call counted: per address (passed, 429, dropped, panicked, harsher than the ladder on "
+                    "its own calls) must be the ladder on its number of calls whatever the interleaving: expected %s" % (len(c.meta["progs"]), want[:600]))
+        return None
+    if c.comp == "limiter.concbound" and "progs" in c.meta:
+        total = sum(k for p in c.meta["progs"] for _, k in p)
+        if i != "(L (N 0) (N 0) (N %d))" % total:
+            return ("concurrent calls: (answers harsher than the ladder on the address's own calls begun so far, panics, calls) must be "
+                    "(0, 0, %d)" % total)
+        return None
     if c.comp in ("limiter.server", "limiter.server_ev") and "conns" in c.meta:
         try:
             got, alive = _parse_server(i)
@@ -773,7 +911,9 @@ def _ended(conns):
 
 
 def signature(c, m):
-    if c.comp in ("limiter.register", "limiter.ops"):
+    if c.comp in ("limiter.conc", "limiter.concbound"):
+        return "concurrent"
+    if c.comp in ("limiter.register", "limiter.ops", "limiter.concseq"):
         return "limited" if ("(N 1)" in m or "(N 2)" in m) and c.meta.get("kind") != "malformed" else None
     return "limited" if ("(N 429)" in m or "(N 3)" in m or "(N 1))" in m) else None
 
